@@ -22,7 +22,7 @@ pub struct C07Check;
 pub static C07: C07Check = C07Check;
 
 const IN_LEN: usize = 8;
-const OUT_LEN: usize = 40;
+const OUT_LEN: usize = 64;
 const MEM_LEN: usize = 8;
 
 const TYPES: &[(&str, &str)] = &[
@@ -236,6 +236,19 @@ pub fn source_for(case: &Json) -> String {
             for j in 0..n_mem {
                 s.push_str(&format!("  m{j} AT %MW{} : UINT;\n", 2 * j));
             }
+            s.push_str("  pbit AT %IX7.7 : BOOL;\n");
+            for (k, bw) in case["bitwords"].as_array().cloned().unwrap_or_default().iter().enumerate() {
+                let ty = bw["ty"].as_str().unwrap_or("WORD");
+                s.push_str(&format!("  bw{k} AT %Q{}{} : {ty} := {ty}#16#{:X};\n", bw["size"].as_str().unwrap_or("W"), bw["byte"].as_u64().unwrap_or(0), bw["init"].as_u64().unwrap_or(0)));
+            }
+            for (k, a) in case["in_arrays"].as_array().cloned().unwrap_or_default().iter().enumerate() {
+                let lo = a["lo"].as_i64().unwrap_or(0);
+                s.push_str(&format!("  ai{k} AT %I{}{} : ARRAY[{lo}..{}] OF {};\n", a["size"].as_str().unwrap_or("W"), a["byte"].as_u64().unwrap_or(0), lo + a["len"].as_i64().unwrap_or(1) - 1, a["ty"].as_str().unwrap_or("INT")));
+            }
+            for (k, a) in case["out_arrays"].as_array().cloned().unwrap_or_default().iter().enumerate() {
+                let lo = a["lo"].as_i64().unwrap_or(0);
+                s.push_str(&format!("  aq{k} AT %Q{}{} : ARRAY[{lo}..{}] OF {};\n", a["size"].as_str().unwrap_or("W"), a["byte"].as_u64().unwrap_or(0), lo + a["len"].as_i64().unwrap_or(1) - 1, a["ty"].as_str().unwrap_or("INT")));
+            }
         }
         s.push_str("END_VAR\n");
         for (i, v) in inputs.iter().enumerate() {
@@ -252,6 +265,31 @@ pub fn source_for(case: &Json) -> String {
         if pi == 1 {
             for j in 0..n_mem {
                 s.push_str(&format!("m{j} := m{j} + 1;\n"));
+            }
+            for (k, bw) in case["bitwords"].as_array().cloned().unwrap_or_default().iter().enumerate() {
+                s.push_str(&format!("bw{k}.%X{} := pbit;\n", bw["bit"].as_u64().unwrap_or(0)));
+            }
+            let in_arrays = case["in_arrays"].as_array().cloned().unwrap_or_default();
+            for (k, a) in case["out_arrays"].as_array().cloned().unwrap_or_default().iter().enumerate() {
+                let lo = a["lo"].as_i64().unwrap_or(0);
+                let ty = a["ty"].as_str().unwrap_or("INT");
+                for (j, e) in a["elems"].as_array().cloned().unwrap_or_default().iter().enumerate() {
+                    let idx = lo + j as i64;
+                    match e["from"].as_u64() {
+                        Some(src_j) if !in_arrays.is_empty() => {
+                            let ilo = in_arrays[0]["lo"].as_i64().unwrap_or(0);
+                            s.push_str(&format!("aq{k}[{idx}] := ai0[{}];\n", ilo + src_j as i64));
+                        }
+                        _ => {
+                            let c = e["c"].as_u64().unwrap_or(0);
+                            let lit = match ty {
+                                "BYTE" | "WORD" => format!("{ty}#16#{c:X}"),
+                                _ => format!("{ty}#{c}"),
+                            };
+                            s.push_str(&format!("aq{k}[{idx}] := {lit};\n"));
+                        }
+                    }
+                }
             }
         }
         // fault site: g_div = program index + 1 selects which program divides by zero
@@ -366,6 +404,52 @@ impl Check for C07Check {
             let pos = if is_arith(ty) && cfg.chance(1, 2) { alloc(&mut cfg, "X").map(|(b, bit)| json!([b, bit])) } else { None };
             inputs.push(json!({"size": size, "ty": ty, "byte": byte, "bit": bit, "global": cfg.chance(1, 4), "outs": outs, "pos": pos}));
         }
+        // bit-string outputs written through partial (bit) access, arrays bound to direct addresses
+        let mut bitwords = vec![];
+        for _ in 0..cfg.usize(0, 2) {
+            let (size, ty) = *cfg.pick(&[("B", "BYTE"), ("W", "WORD"), ("W", "WORD"), ("D", "DWORD"), ("L", "LWORD")]);
+            if let Some((b, _)) = alloc(&mut cfg, size) {
+                let wbits = width(size) as u64 * 8;
+                let init = match cfg.below(3) {
+                    0 => u64::MAX,
+                    1 => 0,
+                    _ => cfg.next_u64(),
+                };
+                let init = if wbits == 64 { init & (u64::MAX >> 1) } else { init & ((1u64 << wbits) - 1) };
+                bitwords.push(json!({"size": size, "ty": ty, "byte": b, "bit": cfg.below(wbits.min(63)), "init": init}));
+            }
+        }
+        let mut in_arrays = vec![];
+        if cfg.chance(1, 3) {
+            let (size, ty) = *cfg.pick(&[("W", "INT"), ("B", "BYTE"), ("W", "UINT")]);
+            let len = cfg.range(2, 3);
+            in_arrays.push(json!({"size": size, "ty": ty, "byte": cfg.usize(0, 1), "lo": cfg.range(-2, 2), "len": len}));
+        }
+        let mut out_arrays = vec![];
+        for _ in 0..cfg.usize(0, 2) {
+            let (size, ty) = match in_arrays.first() {
+                Some(a) if cfg.bool() => (a["size"].as_str().unwrap_or("W").to_string(), a["ty"].as_str().unwrap_or("INT").to_string()),
+                _ => {
+                    let (s_, t_) = *cfg.pick(&[("W", "INT"), ("D", "DINT"), ("W", "WORD"), ("B", "BYTE"), ("W", "UINT")]);
+                    (s_.to_string(), t_.to_string())
+                }
+            };
+            let len = cfg.range(2, 4);
+            let w = width(&size);
+            if next_byte + w * len as usize > OUT_LEN {
+                continue;
+            }
+            let base = next_byte;
+            next_byte += w * len as usize;
+            bit_byte = None;
+            let same_ty_in = in_arrays.first().is_some_and(|a| a["ty"].as_str() == Some(ty.as_str()));
+            let in_len = in_arrays.first().and_then(|a| a["len"].as_u64()).unwrap_or(0);
+            let maxc: u64 = if w == 1 { 0x7f } else { 0x7fff };
+            let elems: Vec<Json> = (0..len)
+                .map(|_| if same_ty_in && cfg.chance(1, 3) { json!({"from": cfg.below(in_len.max(1))}) } else { json!({"c": 1 + cfg.below(maxc)}) })
+                .collect();
+            out_arrays.push(json!({"size": size, "ty": ty, "byte": base, "lo": cfg.range(-2, 3), "len": len, "elems": elems}));
+        }
         let prefill: Vec<u64> = (0..OUT_LEN).map(|_| cfg.below(256)).collect();
         let n_ops = match tier {
             Tier::Quick => o.usize(3, 25),
@@ -399,6 +483,9 @@ impl Check for C07Check {
             "n_drivers": n_drivers,
             "inputs": inputs,
             "mems": cfg.below(4),
+            "bitwords": bitwords,
+            "in_arrays": in_arrays,
+            "out_arrays": out_arrays,
             "prefill": prefill,
             "policy": if cfg.bool() { "halt" } else { "safe_halt" },
             "ops": ops,
@@ -406,7 +493,7 @@ impl Check for C07Check {
     }
 
     fn run(&self, case: &Json, stats: &mut Stats) -> Result<(), Violation> {
-        for p in ["probe.overlapping_inputs", "probe.bit_adjacent_outputs", "probe.forced_input_seen", "probe.forced_output_published", "probe.io_write_latched", "probe.faulted_cycle_checked", "probe.input_changed_between_reads"] {
+        for p in ["probe.overlapping_inputs", "probe.bit_adjacent_outputs", "probe.forced_input_seen", "probe.forced_output_published", "probe.io_write_latched", "probe.faulted_cycle_checked", "probe.input_changed_between_reads", "probe.bit_cleared_above_set_lower_bits", "probe.array_with_nonzero_lower_bound_bound_to_io"] {
             stats.add(p, 0);
         }
         let src = source_for(case);
@@ -466,6 +553,7 @@ impl Check for C07Check {
         // ---- model state
         let mut out_model = prefill.clone();
         let mut mem_model = vec![0u8; MEM_LEN];
+        let mut bitword_vals: Vec<u64> = case["bitwords"].as_array().cloned().unwrap_or_default().iter().map(|b| b["init"].as_u64().unwrap_or(0)).collect();
         let mut forced_in: Vec<Option<u64>> = vec![None; inputs.len()];
         let mut forced_out: Vec<Option<u64>> = vec![None; inputs.len()];
         let mut pending_io: Vec<(usize, u64)> = vec![];
@@ -695,6 +783,42 @@ impl Check for C07Check {
                         for j in 0..n_mem {
                             let cur = decode(&mem_model, "W", 2 * j, 0);
                             encode(&mut mem_model, "W", 2 * j, 0, (cur + 1) & 0xffff);
+                        }
+                        // partial (bit) writes into bit-string outputs: only the addressed bit of the variable changes
+                        let pbit = decode(&in_model, "X", 7, 7);
+                        for (k, bw) in case["bitwords"].as_array().cloned().unwrap_or_default().iter().enumerate() {
+                            let bit = bw["bit"].as_u64().unwrap_or(0);
+                            if k < bitword_vals.len() {
+                                if pbit == 1 {
+                                    bitword_vals[k] |= 1u64 << bit;
+                                } else {
+                                    bitword_vals[k] &= !(1u64 << bit);
+                                    if (bw["init"].as_u64().unwrap_or(0) & ((1u64 << bit) - 1)) != 0 {
+                                        stats.inc("probe.bit_cleared_above_set_lower_bits");
+                                    }
+                                }
+                                encode(&mut expected_out, bw["size"].as_str().unwrap_or("W"), bw["byte"].as_u64().unwrap_or(0) as usize, 0, bitword_vals[k]);
+                            }
+                        }
+                        // arrays bound to a direct address: element j lives at base + j * element size, whatever the lower bound
+                        let in_arrays = case["in_arrays"].as_array().cloned().unwrap_or_default();
+                        for a in case["out_arrays"].as_array().cloned().unwrap_or_default() {
+                            let size = a["size"].as_str().unwrap_or("W").to_string();
+                            let w = width(&size);
+                            let base = a["byte"].as_u64().unwrap_or(0) as usize;
+                            for (j, e) in a["elems"].as_array().cloned().unwrap_or_default().iter().enumerate() {
+                                let val = match e["from"].as_u64() {
+                                    Some(src_j) if !in_arrays.is_empty() => {
+                                        let ib = in_arrays[0]["byte"].as_u64().unwrap_or(0) as usize;
+                                        decode(&in_model, &size, ib + src_j as usize * w, 0)
+                                    }
+                                    _ => e["c"].as_u64().unwrap_or(0),
+                                };
+                                encode(&mut expected_out, &size, base + j * w, 0, val);
+                            }
+                            if a["lo"].as_i64().unwrap_or(0) != 0 {
+                                stats.inc("probe.array_with_nonzero_lower_bound_bound_to_io");
+                            }
                         }
                         // ---- published bytes
                         let image = rt.io().outputs().to_vec();
